@@ -328,12 +328,12 @@ _FUNCS = [_P + 'pit.py::PIT.__init__', _P + 'pit.py::PIT.export', _P + 'graph.py
           'plinio/graph/annotation.py::add_features_calculator', 'plinio/graph/annotation.py::associate_input_features',
           'plinio/graph/transformation.py::fuse_consecutive_layers']
 HARNESSES = [
-    dict(name='whole-import', fn='h_import', property=['C07', 'C08', 'C11'], functions=_FUNCS,
+    dict(name='whole-import', bounded='enumerated architectures (contracts/whole_pit.py NETS); weights, statistics, masks, inputs symbolic', fn='h_import', property=['C07', 'C08', 'C11'], functions=_FUNCS,
          quick=[dict(net=n, training=t, fold_bn=f) for n, t, f in (('chain', True, False), ('chain', False, True), ('residual', True, False), ('residual-input', False, False),
                                                                    ('concat', True, False), ('depthwise2d', False, False), ('activated', True, False), ('temporal', True, False), ('concat-fixed', False, False), ('concat-time', True, False), ('depthwise1d', False, False))] +
                [dict(net='user-placed', training=False, fold_bn=f, autoconvert=a) for f in _B for a in _B],
          thorough=[dict(net=n, training=t, fold_bn=f) for n in NETS for t in _B for f in _B] +
                   [dict(net='user-placed', training=t, fold_bn=f, autoconvert=False) for f in _B for t in _B], timeout=120),
-    dict(name='whole-search-export', fn='h_search_export', property=['C01', 'C09', 'C08', 'C18', 'C04'], functions=_FUNCS,
+    dict(name='whole-search-export', bounded='enumerated architectures (contracts/whole_pit.py NETS); weights, statistics, masks, inputs symbolic', fn='h_search_export', property=['C01', 'C09', 'C08', 'C18', 'C04'], functions=_FUNCS,
          quick=[dict(net=n) for n in NETS], thorough=[dict(net=n) for n in NETS], timeout=120),
 ]
